@@ -38,7 +38,8 @@ Inductive event :=
 | EPush (r : nat)
 | EFetch (r : nat)
 | EMerge (r : nat) (e : nat) (mid mau : N)                (* merge of the tracking ref of e; ids used if a merge commit is written *)
-| ERemove (r : nat) (e : nat).
+| ERemove (r : nat) (e : nat)
+| EReopen (r : nat) (lost_clocks : bool).                 (* process restart; with lost_clocks the clock files were deleted *)
 
 Inductive mstatus := MNew | MNothing | MUpdated | MInvalid.
 Inductive outcome :=
@@ -138,6 +139,9 @@ Definition sstep (sw : sworld) (ev : event) : option (sworld * outcome) :=
           | None => None
           end
       end
+  | EReopen r lost =>
+      if lost then match step w (AResetClock r) with Some w' => Some (with_ww sw w', ODone) | None => None end
+      else Some (sw, ODone)
   end.
 
 Fixpoint srun (sw : sworld) (evs : list event) : option sworld :=
